@@ -94,6 +94,24 @@ var vAggExprs = []vAggExpr{
 		xs := vIntsOf(vs)
 		return vIsInt64(c, vMax64(xs)-vMin64(xs))
 	}},
+	// arithmetic around aggregates, literals on both sides and in chains the optimizer may re-associate
+	{"sum(int(value)) * 3 / 2", func(c Column, ks, vs [][]byte) bool { return vIsInt64(c, vSum(vIntsOf(vs))*3/2) }},
+	{"count(1) * 10 / 4", func(c Column, ks, vs [][]byte) bool { return vIsInt64(c, int64(len(ks))*10/4) }},
+	{"(sum(int(value)) + count(1)) * 2 - 1", func(c Column, ks, vs [][]byte) bool {
+		return vIsInt64(c, (vSum(vIntsOf(vs))+int64(len(ks)))*2-1)
+	}},
+	{"10 - count(1) - 3", func(c Column, ks, vs [][]byte) bool { return vIsInt64(c, 10-int64(len(ks))-3) }},
+	{"2 * sum(int(value)) + 3 * count(1)", func(c Column, ks, vs [][]byte) bool {
+		return vIsInt64(c, 2*vSum(vIntsOf(vs))+3*int64(len(ks)))
+	}},
+	{"sum(int(value)) / count(1) + 7 / 2", func(c Column, ks, vs [][]byte) bool {
+		return vIsInt64(c, vSum(vIntsOf(vs))/int64(len(ks))+3)
+	}},
+	{"sum(int(value)) + 4 + 5", func(c Column, ks, vs [][]byte) bool { return vIsInt64(c, vSum(vIntsOf(vs))+9) }},
+	{"max(int(value)) * 2 * 3 - min(int(value)) / 2 / 2", func(c Column, ks, vs [][]byte) bool {
+		xs := vIntsOf(vs)
+		return vIsInt64(c, vMax64(xs)*6-vMin64(xs)/2/2)
+	}},
 }
 
 type vC09Tmpl struct {
@@ -120,6 +138,9 @@ var vC09Tmpls = []vC09Tmpl{
 	// all byte values: whatever byte an implementation might use to separate tuple members can occur in the data
 	{[]int{0, 1}, []int{0}, "key >= ''", "", "", nil},
 	{[]int{1, 0}, []int{0}, "key >= ''", "", "", nil},
+	{[]int{2}, []int{9, 10, 11, 12}, "key >= ''", "ab", "0139", nil},
+	{[]int{1}, []int{13, 14, 15, 16}, "key >= ''", "ab", "0139", nil},
+	{nil, []int{9, 13, 16, 12}, "key >= ''", "ab", "0139", nil},
 }
 
 func VN_C09(tier int) int { return len(vC09Tmpls) }
